@@ -5,8 +5,8 @@
 //!     stderr: "dist <class>=<count> ..." (input distribution)
 //!   c12 falsify <seed> <n>  -> one JSON object per failure of the model-independent oracle
 //!        T::read_from(reader over v.to_bytes() ++ junk) == Ok(v) and exactly junk is left unread,
-//!        for SliceReader, std::io::Cursor and ReadAdapter (ReadAdapter-only failures are tagged
-//!        "delegated-to-C13"); final line "evaluations=<n> failures=<k>"
+//!        for SliceReader, std::io::Cursor and ReadAdapter (slice source, random chunking, short-read sources
+//!        delivering 1 / 3 / 7 / 1-3-7 / 255-2 bytes per read); final line "evaluations=<n> failures=<k>"
 use std::collections::{BTreeMap, BTreeSet};
 use std::fmt::Debug;
 use std::panic::AssertUnwindSafe;
@@ -749,7 +749,9 @@ fn check_reader<T, R>(name: &str, ty: &str, desc: &str, v: &T, junk: &[u8], mk: 
 where T: Deserializable + PartialEq + Debug, R: ByteReader {
     f.evals += 1;
     let res = catch(AssertUnwindSafe(|| { let mut rd = mk(); let x = T::read_from(&mut rd); let rem = if x.is_ok() { remaining(&mut rd) } else { vec![] }; (x, rem) }));
-    let tag = if name.starts_with("ReadAdapter") { format!("delegated-to-C13:{}:{}", name, ty) } else { format!("roundtrip:{}:{}", name, ty) };
+    // round 2: the ReadAdapter repairs of C13 are committed, so a ReadAdapter-only failure is a C12 failure
+    // ("whichever byte-source implementation is used")
+    let tag = format!("roundtrip:{}:{}", name, ty);
     match res {
         Err(m) => f.fail(&tag, desc, "Ok(v), junk unread", &format!("panic: {}", m)),
         Ok((Err(e), _)) => f.fail(&tag, desc, "Ok(v), junk unread", &format!("Err({})", e)),
@@ -774,6 +776,13 @@ fn rt<T: Serializable + Deserializable + PartialEq + Debug>(ty: &str, desc: &str
         check_reader::<T, _>("ReadAdapter/slice", ty, desc, v, &junk, || ReadAdapter::new(&mut src), f);
         let mut ch = Chunked { data: &all, pos: 0, sizes: vec![1 + r.below(7) as usize, 1 + r.below(300) as usize, 1], k: 0 };
         check_reader::<T, _>("ReadAdapter/chunked", ty, desc, v, &junk, || ReadAdapter::new(&mut ch), f);
+        // short-read sources (socket / pipe like): a fixed number of bytes per read() call, so that fixed-width reads
+        // find 0 < k < N bytes in the BufReader right after byte-wise reads left a consumed prefix in the local buffer
+        for (name, sizes) in [("ReadAdapter/short_one", vec![1usize]), ("ReadAdapter/short_three", vec![3]), ("ReadAdapter/short_seven", vec![7]),
+                              ("ReadAdapter/short_one_three_seven", vec![1, 3, 7]), ("ReadAdapter/short_block_two", vec![255, 2])] {
+            let mut ch = Chunked { data: &all, pos: 0, sizes, k: 0 };
+            check_reader::<T, _>(name, ty, desc, v, &junk, || ReadAdapter::new(&mut ch), f);
+        }
     }
     // read_from_bytes convenience entry point
     f.evals += 1;
@@ -820,6 +829,24 @@ fn falsify(seed: u64, n: usize) {
         let k = *r.pick(&[16383usize, 16384, 16385, 70000]);
         let big: Vec<u8> = r.bytes(k);
         rt("Vec<u8>", &format!("len {}", big.len()), &big, r, f);
+    }
+    // byte-wise reads (length prefixes, Vec<u8>, String) immediately followed by fixed-width values, with total
+    // offsets straddling the 256-byte block boundary of ReadAdapter's BufReader (whole-buffer sources), and plain
+    // sequences of fixed-width values behind a vint64 prefix (short-read sources)
+    for n in (240usize..=262).chain(496..=520) {
+        let t = (r.bytes(n), r.next_u64());
+        rt("(Vec<u8>,u64)", &format!("vec len {} then u64", n), &t, r, f);
+    }
+    for n in [0usize, 1, 2, 31, 32, 33, 100] {
+        let v: Vec<u64> = (0..n).map(|_| r.next_u64()).collect();
+        rt("Vec<u64>", &format!("len {}", n), &v, r, f);
+        let w: Vec<F64> = (0..n).map(|_| F64::new(f64v(r))).collect();
+        rt("Vec<f64>", &format!("len {}", n), &w, r, f);
+        let s = rand_utf8(r, n);
+        let t = (s, r.next_u128(), r.next_u64() as u16);
+        rt("(String,u128,u16)", &format!("{} chars", n), &t, r, f);
+        let t = (r.bytes(n + 250), F128::new(f128v(r)), Dg32(D32::read_from_bytes(&r.bytes(32)).unwrap()));
+        rt("(Vec<u8>,f128,ByteDigest<32>)", &format!("vec len {}", n + 250), &t, r, f);
     }
     // field / extension elements reached through arithmetic (not only through new()), digests
     for _ in 0..reps * 3 {
